@@ -1351,11 +1351,7 @@ func (this *rolzCodec2) Inverse(src, dst []byte) (uint, uint, error) {
 func (this *rolzCodec2) MaxEncodedLen(srcLen int) int {
 	// Since we do not check the dst index for each byte (for speed purpose)
 	// allocate some extra buffer for incompressible data.
-	if srcLen <= 16384 {
-		return srcLen + 1024
-	}
-
-	return srcLen + srcLen/32
+	return srcLen + max(srcLen/32, 1024)
 }
 
 type rolzEncoder struct {
